@@ -5,11 +5,12 @@
              list equals the model's;
    spec_ok : every match list satisfies the property's four clauses against Spec/Regex.v;
    kf      : 1 when every input that fails the spec is in the class of known finding 9.5. *)
-From Boreal Require Import Base.Prelude Spec.Regex Model.Hir Model.Widen Model.Validator Model.Raw Model.HirScan.
+From Boreal Require Import Base.Prelude Base.Consts Spec.Regex Model.Hir Model.Widen Model.Validator Model.Raw Model.HirScan.
 
 Definition matches_eqb : list (N * N) -> list (N * N) -> bool := list_eqb (pair_eqb N.eqb N.eqb).
 
-Definition default_max_nb : N := 1000.   (* ScanParams::default().string_max_nb_matches *)
+(* ScanParams::default().string_max_nb_matches, re-extracted from /repo on every run *)
+Definition default_max_nb : N := Consts.DEFAULT_STRING_MAX_NB_MATCHES.
 
 (* the property, for one input: starts = offsets with a member; every (offset, length) is a member;
    the length is one of the three recognised choices.  (Strictly ascending, one per offset: implied
